@@ -259,6 +259,67 @@ func checkC18(p *core.Program, r *core.Report) {
 			r.Fail(R5, "modification sites", "", fmt.Sprintf("expected at least 3 sites that modify a stored pairing detail, found %d", nmod))
 		}
 	}
+	// ---- R7: the update path records every state that differs from the stored one; the record is a plain pointer cell
+	const R7 = "C18.R7 update-recorded-unless-unchanged"
+	r.Rule(R7, "HandleShipHandshakeStateUpdate stores (and notifies) the new detail on every path except the one on which the mapped state equals the stored state (a further veto - e.g. 'never leave Completed' - silences the whole next handshake of that SKI); ServiceDetails.SetConnectionStateDetail stores the pointer it is given and ConnectionStateDetail returns it (the delayed notification holds that very object, in-place updates must stay visible through it)")
+	if upd := p.Method("hub", "Hub", "HandleShipHandshakeStateUpdate"); upd == nil {
+		r.Unresolved(R7, "hub.Hub.HandleShipHandshakeStateUpdate")
+	} else {
+		isStore := core.NewMust(p, 2, func(in ssa.Instruction) bool {
+			return core.CallsMethodNamed(in, apiPath, "ServiceDetails", "SetConnectionStateDetail")
+		})
+		sameState := func(b *ssa.BasicBlock, idx int) bool {
+			i := core.BlockIf(b)
+			if i == nil {
+				return false
+			}
+			v, truth := core.Truth(i.Cond, idx)
+			bo, ok := v.(*ssa.BinOp)
+			if !ok || (bo.Op != token.EQL && bo.Op != token.NEQ) || core.NamedOf(bo.X.Type()) != connT0(p) {
+				return false
+			}
+			if core.ConstOf(bo.X) != nil || core.ConstOf(bo.Y) != nil {
+				return false // a comparison with one particular state is not the "unchanged" test
+			}
+			return truth == (bo.Op == token.EQL)
+		}
+		key := "hub.HandleShipHandshakeStateUpdate records every changed state"
+		if bad := core.PathSearch(upd, nil, core.IsReturn, func(in ssa.Instruction) bool {
+			switch in.(type) {
+			case *ssa.Call:
+				return isStore.Instr(in)
+			}
+			return false
+		}, sameState); bad != nil {
+			r.Fail(R7, key, p.Pos(bad.Pos()), "a path of the update callback returns without storing the new pairing detail although it was not found equal to the stored one: those state changes are neither recorded nor announced, the application's last notification stays at an older state")
+		} else {
+			r.OK(R7, key, p.Pos(upd.Pos()), "only the unchanged case skips the store")
+		}
+	}
+	if set, get := p.Method("api", "ServiceDetails", "SetConnectionStateDetail"), p.Method("api", "ServiceDetails", "ConnectionStateDetail"); set == nil || get == nil {
+		r.Unresolved(R7, "api.ServiceDetails.SetConnectionStateDetail / ConnectionStateDetail")
+	} else {
+		var fld *types.Var
+		core.EachInstr(get, func(in ssa.Instruction) {
+			if ret, ok := in.(*ssa.Return); ok && len(ret.Results) == 1 {
+				if f, _ := core.LoadedField(core.ResultOf(ret, 0)); f != nil {
+					fld = f
+				}
+			}
+		})
+		stores := false
+		core.EachInstr(set, func(in ssa.Instruction) {
+			if f, _, v := core.StoredField(in); f != nil && f == fld && len(set.Params) == 2 && core.Canon(v) == ssa.Value(set.Params[1]) {
+				stores = true
+			}
+		})
+		key := "api.ServiceDetails detail cell stores and returns the same pointer"
+		if fld != nil && stores {
+			r.OK(R7, key, p.Pos(set.Pos()), "setter stores its argument into the field the getter returns")
+		} else {
+			r.Fail(R7, key, p.Pos(set.Pos()), "SetConnectionStateDetail does not store the pointer it is given (or the getter returns something else): the object a pending delayed notification holds is then not the hub's live record, so a later in-place change (cancel, unregister, register) is invisible to it and the superseded state is delivered last")
+		}
+	}
 	// ---- R6: a cancel that was announced as None really ends the pending handshake (shared with C10.R3 / C01.R5)
 	const R6 = "C18.R6 cancel-takes-effect"
 	r.Rule(R6, "the abort entry of the SHIP connection ends terminal from both waiting states: CancelPairingWithSKI announces None, so a connection that silently keeps waiting makes the hub report InProgress (and later Completed) after the application's last notification said None")
@@ -344,7 +405,7 @@ func checkC18(p *core.Program, r *core.Report) {
 		key := user + " uses " + m.Name()
 		uses := false
 		if fn != nil {
-			core.EachInstr(fn, func(in ssa.Instruction) {
+			eachInstrWithCallees(p, fn, "hub", 2, func(in ssa.Instruction) {
 				if c := core.Common(in); c != nil && c.StaticCallee() == m {
 					uses = true
 				}
@@ -412,3 +473,5 @@ func isHubValue(p *core.Program, v ssa.Value) bool {
 	}
 	return core.NamedOf(v.Type()) == hub
 }
+
+func connT0(p *core.Program) *types.Named { return p.Named("api", "ConnectionState") }
